@@ -32,35 +32,60 @@ Nil == [k |-> "nil"]
 Rec(a) == [k |-> "rec", a |-> a]
 Adt(b, a) == [k |-> "adt", b |-> b, a |-> a]
 RVals(n) == {Nil} \cup {Rec(<<SV(c), IV("5")>>) : c \in Sym(n)} \cup {Rec(<<SV(<<"a">>), IV("-2147483648")>>)}
-AVals(n) == {Adt("N", <<>>), Adt("W", <<Nil>>)} \cup {Adt("C", <<IV("-7"), SV(c)>>) : c \in Sym(n)}
+
+AVals(n, nc) == {Adt("N", <<>>), Adt("W", <<Nil>>)} \cup {Adt("C", <<IV("-7"), SV(c)>>) : c \in Sym(nc)}
             \cup {Adt("S", <<SV(c)>>) : c \in Sym(n)} \cup {Adt("W", <<Rec(<<SV(c), IV("5")>>)>>) : c \in Sym(1)}
+I0 == IV("0")   U0 == UV("0")   F0 == FV(FALSE, "15", 0)
+IUF == {<<i, u, F0>> : i \in Ints, u \in Uns} \cup {<<I0, U0, f>> : f \in Floats}
 
 SN == IF Tier = 1 THEN 2 ELSE 3
-Kinds ==
-  [ s   |-> [types |-> <<"s">>, vals |-> {<<SV(c)>> : c \in Sym(SN)}],
-    si  |-> [types |-> <<"s", "i">>, vals |-> {<<SV(c), IV("7")>> : c \in Sym(2)}],
-    is  |-> [types |-> <<"i", "s">>, vals |-> {<<IV("7"), SV(c)>> : c \in Sym(2)}],
-    ss  |-> [types |-> <<"s", "s">>, vals |-> {<<SV(a), SV(b)>> : a \in Sym(1), b \in Sym(1)}],
-    iuf |-> [types |-> <<"i", "u", "f">>, vals |-> {<<i, u, f>> : i \in Ints, u \in Uns, f \in Floats}],
-    fx  |-> [types |-> <<"f">>, vals |-> {<<f>> : f \in Specials}],
-    R   |-> [types |-> <<"R">>, vals |-> {<<r>> : r \in RVals(SN)}],
-    Rs  |-> [types |-> <<"R", "s">>, vals |-> {<<r, SV(c)>> : r \in RVals(1), c \in Sym(1)}],
-    RR  |-> [types |-> <<"RR">>, vals |-> {<<Nil>>, <<Rec(<<Nil, UV("4294967295")>>)>>}
-                                      \cup {<<Rec(<<Rec(<<SV(c), IV("5")>>), UV("1")>>)>> : c \in Sym(1)}],
-    A   |-> [types |-> <<"A">>, vals |-> {<<a>> : a \in AVals(2)}],
-    Ai  |-> [types |-> <<"A", "i">>, vals |-> {<<a, IV("7")>> : a \in AVals(1)}],
-    E   |-> [types |-> <<"E", "i">>, vals |-> {<<Adt("Red", <<>>), IV("1")>>, <<Adt("Green", <<>>), IV("2")>>}],
-    RA  |-> [types |-> <<"RA">>, vals |-> {<<Nil>>} \cup {<<Rec(<<a, IV("5")>>)>> : a \in AVals(1)}] ]
-KindNames == DOMAIN Kinds
+\* relation shapes and tuples: the full adversarial space for the text formats, a reduced one for the header variants
+\* (a header only adds a first line) and for the channels (whose bytes are not modelled)
+KTypes == [ s |-> <<"s">>, si |-> <<"s", "i">>, is |-> <<"i", "s">>, ss |-> <<"s", "s">>, iuf |-> <<"i", "u", "f">>,
+            fx |-> <<"f">>, R |-> <<"R">>, Rs |-> <<"R", "s">>, RR |-> <<"RR">>, A |-> <<"A">>, Ai |-> <<"A", "i">>,
+            E |-> <<"E", "i">>, RA |-> <<"RA">> ]
+RRVals == {<<Nil>>, <<Rec(<<Nil, UV("4294967295")>>)>>} \cup {<<Rec(<<Rec(<<SV(c), IV("5")>>), UV("1")>>)>> : c \in Sym(1)}
+EVals == {<<Adt("Red", <<>>), IV("1")>>, <<Adt("Green", <<>>), IV("2")>>}
+KFull ==
+  [ s   |-> {<<SV(c)>> : c \in Sym(SN)},
+    si  |-> {<<SV(c), IV("7")>> : c \in Sym(2)},
+    is  |-> {<<IV("7"), SV(c)>> : c \in Sym(2)},
+    ss  |-> {<<SV(a), SV(b)>> : a \in Sym(1), b \in Sym(1)},
+    iuf |-> IUF,
+    fx  |-> {<<f>> : f \in Specials},
+    R   |-> {<<r>> : r \in RVals(SN)},
+    Rs  |-> {<<r, SV(c)>> : r \in RVals(1), c \in Sym(1)},
+    RR  |-> RRVals,
+    A   |-> {<<a>> : a \in AVals(2, IF Tier = 1 THEN 1 ELSE 2)},
+    Ai  |-> {<<a, IV("7")>> : a \in AVals(1, 1)},
+    E   |-> EVals,
+    RA  |-> {<<Nil>>} \cup {<<Rec(<<a, IV("5")>>)>> : a \in AVals(1, 1)} ]
+KHdr ==
+  [ s   |-> {<<SV(c)>> : c \in Sym(1)},
+    ss  |-> {<<SV(a), SV(b)>> : a \in Sym(1), b \in Sym(1)},
+    iuf |-> IUF,
+    R   |-> {<<r>> : r \in RVals(1)},
+    A   |-> {<<a>> : a \in AVals(1, 1)} ]
+KChan ==
+  [ s   |-> {<<SV(c)>> : c \in Sym(2)},
+    si  |-> {<<SV(c), IV("7")>> : c \in Sym(1)},
+    ss  |-> {<<SV(a), SV(b)>> : a \in Sym(1), b \in Sym(1)},
+    iuf |-> IUF,
+    fx  |-> {<<f>> : f \in Specials},
+    R   |-> {<<r>> : r \in RVals(1)},
+    RR  |-> RRVals,
+    A   |-> {<<a>> : a \in AVals(1, 1)},
+    E   |-> EVals,
+    RA  |-> {<<Nil>>} \cup {<<Rec(<<a, IV("5")>>)>> : a \in AVals(1, 1)} ]
+KOf(fi) == IF Fmts[fi].kind = "channel" THEN KChan ELSE IF Fmts[fi].headers THEN KHdr ELSE KFull
 AttrNames == <<Cs("x"), Cs("y"), Cs("z")>>
-KindTypes == [kn \in KindNames |-> Kinds[kn].types]
-Attrs(kn) == SubSeq(AttrNames, 1, Len(KindTypes[kn]))
+Attrs(kn) == SubSeq(AttrNames, 1, Len(KTypes[kn]))
 
 \* three levels so that TLC's workers share the space: root -> (format, shape) -> tuple
 VARIABLE vec
 Init == vec = [st |-> 0]
-Next == \/ vec.st = 0 /\ \E fi \in 1..Len(Fmts), kn \in KindNames : vec' = [st |-> 1, f |-> fi, k |-> kn]
-        \/ vec.st = 1 /\ \E tup \in Kinds[vec.k].vals : vec' = [st |-> 2, f |-> vec.f, k |-> vec.k, t |-> tup]
+Next == \/ vec.st = 0 /\ \E fi \in 1..Len(Fmts) : \E kn \in DOMAIN KOf(fi) : vec' = [st |-> 1, f |-> fi, k |-> kn]
+        \/ vec.st = 1 /\ \E tup \in KOf(vec.f)[vec.k] : vec' = [st |-> 2, f |-> vec.f, k |-> vec.k, t |-> tup]
 
 Devs == [q |-> {"q"}, b |-> {"b"}, qb |-> {"q", "b"}]
 DevNames == DOMAIN Devs
@@ -74,7 +99,7 @@ EncV(v) == CASE v.k = "s" -> [k |-> "s", c |-> Codes(v.c)]
              [] v.k = "adt" -> [k |-> "adt", b |-> v.b, a |-> [i \in 1..Len(v.a) |-> EncV(v.a[i])]]
 
 F == Fmts[vec.f]
-Ty == KindTypes[vec.k]
+Ty == KTypes[vec.k]
 TheoremHolds == vec.st = 2 => Theorem(F, Attrs(vec.k), Ty, vec.t)
 Emit == vec.st = 2 => PrintT(ToJson([tag |-> "V", f |-> vec.f, k |-> vec.k, types |-> Ty,
                        t |-> [i \in 1..Len(vec.t) |-> EncV(vec.t[i])],
